@@ -146,16 +146,29 @@ def kernel_storage(prog, rep, cands):
                           explorers=VecV([Cell(StrV(n)) for n in names]), subnet_type=Opaque('s'))
         it.overrides['storage::get_config'] = it.overrides['get_config'] = lambda it_, k, r, a: cfg
         rounds = []
+        from mirsym.models_std import LeafFuture, poll_once
         for rnd in range(2):
             hs = []
+            infos = []
             for i, n in enumerate(names):
                 okf = it.choose(2, 'fetch') == 0
                 h = it.fresh('r%d_h%d' % (rnd, i), 'u64', HMIN, HMAX) if okf else None
                 hs.append(h)
-                info = H.mk_struct(prog, 'fetch::BlockInfo', provider=StrV(n), height=(some(h) if h is not None else none()))
-                it.call('storage::insert_block_info', [info])
+                infos.append(H.mk_struct(prog, 'fetch::BlockInfo', provider=StrV(n), height=(some(h) if h is not None else none())))
             can = it.fresh('r%d_c' % rnd, 'u64', 0, HMAX)
-            it.call('storage::set_canister_height', [some(can)])
+            # the real fetch round of lib.rs (fetch_block_height: join!, the insert loop, set_canister_height), with the
+            # two fetch futures replaced by leaf futures delivering this round's results
+            it.overrides['fetch::fetch_all_providers_data'] = it.overrides['fetch_all_providers_data'] = \
+                (lambda vals: lambda it_, k, r, a: LeafFuture(lambda it2: VecV([Cell(v) for v in vals]), pending=0))(infos)
+            it.overrides['fetch::fetch_canister_height'] = it.overrides['fetch_canister_height'] = \
+                (lambda c: lambda it_, k, r, a: LeafFuture(lambda it2: some(c), pending=0))(can)
+            co = Cell(it.call('fetch_block_height', []))
+            for _ in range(4):
+                st_, _v = poll_once(it, co)
+                if st_ == 'ready':
+                    break
+            else:
+                raise Unsupported('fetch_block_height does not complete')
             rounds.append((hs, can))
         status = it.call('health::health_status', [])
         tgt = it.call('calculate_target', [status])
@@ -250,9 +263,9 @@ def main():
                              outside='heights below the configured thresholds (saturating arithmetic near 0); more than %d explorers; the HTTP fetch itself' % K)
     rep.cov['functions_encoded'] = ['health::compare', 'health::calculate_height_target', 'health::median', 'health::health_status',
                                     'api_access::calculate_target', 'Config::{for_target,get_blocks_behind_threshold,get_blocks_ahead_threshold}',
-                                    'Canister::{network,canister_principal,subnet_type}', 'storage::{insert_block_info,get_block_info,set_canister_height,get_canister_height}']
+                                    'Canister::{network,canister_principal,subnet_type}', 'storage::{insert_block_info,get_block_info,set_canister_height,get_canister_height}', 'fetch_block_height (coroutine poll fn incl. the futures::join! expansion)']
     rep.cov['stubs'] = ['slice::sort -> forking insertion sort (every order consistent with the keys)', 'thread_local LocalKey::with -> closure on a model cell',
-                        'HashMap -> ordered association list', 'print -> no-op', 'Canister::canister_principal -> opaque (text decoding of a constant)', 'storage::get_config -> scenario config (kernel s)']
+                        'HashMap -> ordered association list', 'print -> no-op', 'Canister::canister_principal -> opaque (text decoding of a constant)', 'storage::get_config -> scenario config (kernel s)', 'fetch_all_providers_data / fetch_canister_height -> leaf futures delivering the round results; futures-util MaybeDone / poll_fn models']
     rep.assumptions = ['median of an even number of heights = floor of the mean of the two middle values (the reading the code documents)',
                        'the decision rule is symmetric in the explorer results by construction of the oracle, hence order invariance']
     cands = Cands()
